@@ -71,8 +71,8 @@ type c09Spec struct {
 	// which the server is back and serves the rest: the call completes (some two hours of back-off later)
 	LongOutage bool     `json:"long_outage,omitempty"`
 	SAMsgs     int      `json:"sa_msgs,omitempty"`
-	SAIDs  bool     `json:"sa_ids,omitempty"`
-	SACuts []c09Cut `json:"sa_cuts,omitempty"`
+	SAIDs      bool     `json:"sa_ids,omitempty"`
+	SACuts     []c09Cut `json:"sa_cuts,omitempty"`
 }
 
 func genC09(r *vh.Rand) c09Spec {
